@@ -162,6 +162,7 @@ def constants(ctx, report):
 
 
 def ldap_schema(ctx, report):
+    null_terminated(ctx, report)
     report.rule('C09.R6', 'asn1crypto schema tables equal RFC 4511')
     spec = load_spec('opp.json')['ldap']
     model, it = ctx.model, ctx.interp
@@ -205,3 +206,70 @@ def ldap_schema(ctx, report):
                     break
         else:
             report.sample({'rule': 'C09.R6', 'class': cname, 'entries': len(got), 'ref': ent['ref']})
+
+
+# ---- R7: NUL terminated strings (MySQL string<NUL>) ---------------------------------------------------------------------
+
+def null_terminated(ctx, report):
+    """ParserBinary.parse_string_null_terminated evaluated (sa.miniexec) on the shapes the MySQL handshake uses: an empty
+    string (a lone terminator), a string at offset 0 and at a later offset, and a missing terminator. The value is the
+    bytes before the first 0x00 at or after the cursor, the cursor moves past the terminator, a missing terminator is
+    InvalidValue."""
+    import ast
+    from ..miniexec import Evaluator, Native, Raised, Unsupported
+    rule = 'C09.R7'
+    report.rule(rule, 'NUL terminated strings: empty, at an offset, unterminated')
+    pb = ctx.model.cls('ParserBinary')
+    f = pb.methods.get('parse_string_null_terminated')
+    if f is None:
+        report.error('%s: ParserBinary.parse_string_null_terminated vanished' % rule)
+        return
+    report.touch(f)
+
+    class Parser(Native):
+        def __init__(self, data, pos):
+            self._parsable, self._parsed_length, self._parsed_values = bytes(data), pos, {}
+
+        @property
+        def unparsed_length(self):
+            return len(self._parsable) - self._parsed_length
+
+        def _parse_string_by_length(self, name, min_length, max_length, encoding, converter):
+            data = self._parsable[self._parsed_length:self._parsed_length + max_length]
+            if len(data) < min_length:
+                raise Unsupported('short read in the model')
+            return data.decode(encoding), len(data)
+
+    def hook(n, ev):
+        d = ast.unparse(n.func)
+        if d == 'six.iterbytes':
+            return list(bytes(ev.ev(n.args[0])))
+        if d == 'six.raise_from':
+            raise Raised(ast.unparse(n.args[0]))
+        return NotImplemented
+    cases = [(b'\x00rest', 0, '', 1), (b'ab\x00cd', 0, 'ab', 3), (b'xy\x00ab\x00zz', 3, 'ab', 6), (b'8.0.33\x00', 0, '8.0.33', 7), (b'\x00', 0, '', 1), (b'q\x00\x00', 2, '', 3)]
+    try:
+        for data, pos, want, end in cases:
+            report.count(rule)
+            me = Parser(data, pos)
+            try:
+                Evaluator({'self': me, 'name': 'v', 'encoding': 'ascii', 'converter': str}, hook, lambda name: str if name == 'str' else (_ for _ in ()).throw(Unsupported('free name ' + name))).function(f.node)
+            except Raised as e:
+                report.add(rule, '%s@%s' % (f.construct, 'empty' if want == '' else 'string'),
+                           '%r at offset %d: a conformant %s string is refused (%s)' % (data, pos, 'empty' if want == '' else 'NUL terminated', e.what[:50]))
+                continue
+            got, cur = me._parsed_values.get('v'), me._parsed_length
+            if got != want or cur != end:
+                report.add(rule, '%s@%s' % (f.construct, 'empty' if want == '' else 'string'),
+                           '%r at offset %d is read as %r with the cursor at %d; expected %r and %d' % (data, pos, got, cur, want, end))
+        for data, pos in ((b'abc', 0), (b'ab\x00cd', 3), (b'', 0)):
+            report.count(rule)
+            me = Parser(data, pos)
+            try:
+                Evaluator({'self': me, 'name': 'v', 'encoding': 'ascii', 'converter': str}, hook, lambda name: str).function(f.node)
+                report.add(rule, f.construct + '@unterminated', '%r at offset %d has no terminator but is accepted (value %r)' % (data, pos, me._parsed_values.get('v')))
+            except Raised as e:
+                if 'InvalidValue' not in e.what and 'NotEnoughData' not in e.what:
+                    report.add(rule, f.construct + '@unterminated', 'a missing terminator raises %s' % e.what[:60])
+    except Unsupported as e:
+        report.add(rule, f.construct + '@tabulation', 'the primitive left the subset the tabulation understands: %s' % e)
